@@ -9,33 +9,28 @@ Theorem C16_visited_terminates : forall g n, wf_graph g -> n < List.length g ->
 Proof. exact guarded_walk_terminates. Qed.
 Print Assumptions C16_visited_terminates.
 
-(* The mock emitter's walk finishes on response types whose followed edges are acyclic ... *)
-Theorem C16_mock_acyclic : forall g (rank : nat -> nat),
-  (forall n m, In (m, true) (edges_of g n) -> rank m < rank n) ->
-  forall fuel n, rank n < fuel -> exists k, mock_assign fuel g n = Some k.
-Proof. exact mock_ranked_terminates. Qed.
-Print Assumptions C16_mock_acyclic.
+(* The mock emitter's walk (generate_mock=true), which stops at message types already on the path
+   being filled, finishes on every finite graph, cyclic or not, within depth |g|+1. *)
+Theorem C16_mock_terminates : forall g n, wf_graph g -> n < List.length g ->
+  mock_path (S (List.length g)) g [] n <> None.
+Proof. exact mock_path_terminates. Qed.
+Print Assumptions C16_mock_terminates.
 
-(* ... and never finishes (for any amount of fuel) once the response type reaches a cycle of
-   singular message fields / message-valued maps: the property is refuted for generate_mock=true. *)
-Theorem C16_mock_diverges_refuted : forall g (C : list nat),
+(* History: before the repair the walk had no path set; that walk provably never terminates on a
+   cycle of followed edges (this is the defect that was fixed). *)
+Theorem C16_unguarded_mock_diverged : forall g (C : list nat),
   (forall n, In n C -> exists m, In m C /\ In (m, true) (edges_of g n)) ->
   forall fuel n, In n C -> mock_assign fuel g n = None.
 Proof. exact mock_cycle_diverges. Qed.
-Print Assumptions C16_mock_diverges_refuted.
-
-Theorem C16_mock_reaches_cycle_refuted : forall g n m,
-  In (m, true) (edges_of g n) -> (forall fuel, mock_assign fuel g m = None) ->
-  forall fuel, mock_assign fuel g n = None.
-Proof. exact mock_reaches_diverging. Qed.
-Print Assumptions C16_mock_reaches_cycle_refuted.
+Print Assumptions C16_unguarded_mock_diverged.
 
 (* message Node { Node next = 1; repeated Node kids = 2; } and a response wrapping it *)
 Definition ex_graph : graph := [ {| mn_edges := [(1, true)] |}; {| mn_edges := [(1, true); (1, false)] |} ].
 Example C16_nonvacuous :
-  wf_graph ex_graph /\ collect 3 ex_graph [] 0 = Some [1; 0] /\ mock_assign 50 ex_graph 0 = None.
+  wf_graph ex_graph /\ collect 3 ex_graph [] 0 = Some [1; 0] /\ mock_path 3 ex_graph [] 0 = Some 3 /\
+  mock_assign 50 ex_graph 0 = None.
 Proof.
-  split; [|split; vm_compute; reflexivity].
+  split; [|repeat split; vm_compute; reflexivity].
   intros n t b. destruct n as [|[|n]]; cbn; intros H.
   - destruct H as [H|[]]. inversion H. cbn. lia.
   - destruct H as [H|[H|[]]]; inversion H; cbn; lia.
